@@ -574,7 +574,8 @@ def observe(nodes, runs=2):
     tH[cfg_pre] = sha(cfg_pre)
     if "plcid-" + tH[cfg_pre] != payload["identity"]["config_id"]:
         raise Mismatch("config id is not plcid-sha256(sorted pairs JSON)")
-    out = {"uuids": uu, "nodesem": sems, "plid": plid, "semid": payload["identity"]["semantic_id"],
+    invalid = [i for i, n in enumerate(insp.nodes) if not getattr(n, "is_configuration_valid", True)]
+    out = {"invalid_nodes": invalid, "uuids": uu, "nodesem": sems, "plid": plid, "semid": payload["identity"]["semantic_id"],
            "cfgid": payload["identity"]["config_id"], "required": list(payload["required_context_keys"]),
            "payload": payload, "tU": tU, "tH": tH, "run_plids": [], "problems": []}
     # Pipeline construction + traced runs of one object
@@ -630,6 +631,11 @@ Eval vm_compute in bad_indices case_ok cases 0.
 
 
 def case_lit(nodes, ob):
+    if ob.get("invalid_nodes"):
+        # a node the inspection marks invalid (unknown parameter left by a processor mutation ...) contributes no required
+        # keys; Model/Identity.v's node_required describes valid nodes only (the identities themselves do not depend on it
+        # and are judged by the direct mutation oracle)
+        raise ValueError("configuration with an invalid node: required keys outside the modelled fragment")
     tab = lambda t: cq_list(["(%s, %s)" % (cq_str(k), cq_str(v)) for k, v in t.items()])
     sl = lambda l: cq_list(l, cq_str)
     return "(%s, %s, %s, (%s, %s, %s, %s, %s, %s, %s))" % (
